@@ -237,7 +237,12 @@ class WebsocketSession(object):
             # Get the write lock, so we can be certain data sending
             # in another thread is sent.
             with self._lock:
-                self._sock.shutdown(socket.SHUT_RDWR)
+                try:
+                    self._sock.shutdown(socket.SHUT_RDWR)
+                except socket.error:
+                    # No longer connected (e.g. reset by the peer), the
+                    # descriptor still has to be released
+                    pass
                 self._sock.close()
         except socket.error:
             # Socket is already closed, just a no-op
